@@ -138,6 +138,8 @@ type World struct {
 	constCache map[*ssa.Const]Value
 	initDone   map[*ssa.Package]bool
 	inInit     bool
+	forced     []ndValue // model replay: nondeterministic values fixed to a vector
+	forcedPos  int
 	shard      int
 	nshards    int
 	tolerant   int // >0: executing best-effort package initialisation
@@ -414,6 +416,39 @@ func (w *World) assumeNoCheck(c *Term) {
 
 func (w *World) logND(label, kind string, terms []*Term, conc int64) {
 	w.ndlog = append(w.ndlog, ndEntry{Label: label, Kind: kind, terms: terms, conc: conc})
+	if w.forced != nil && kind != "choose" {
+		// model replay: pin the values to the recorded vector
+		if w.forcedPos < len(w.forced) && w.forced[w.forcedPos].Label == label {
+			fv := w.forced[w.forcedPos]
+			switch kind {
+			case "bytes":
+				for i, t := range terms {
+					var b uint64
+					if 2*i+2 <= len(fv.Hex) {
+						fmt.Sscanf(fv.Hex[2*i:2*i+2], "%02x", &b)
+					}
+					w.assumeNoCheck(w.tt.Eq(t, w.tt.BV(8, b)))
+				}
+			case "bool":
+				w.assumeNoCheck(w.tt.Eq(terms[0], w.tt.Bool(fv.Int != 0)))
+			default:
+				w.assumeNoCheck(w.tt.Eq(terms[0], w.tt.BV(terms[0].w, uint64(fv.Int))))
+			}
+		}
+		w.forcedPos++
+	}
+}
+
+// forcedChoice: in model replay a Choose takes the recorded alternative.
+func (w *World) forcedChoice(label string) (int, bool) {
+	if w.forced == nil {
+		return 0, false
+	}
+	defer func() { w.forcedPos++ }()
+	if w.forcedPos < len(w.forced) && w.forced[w.forcedPos].Label == label {
+		return int(w.forced[w.forcedPos].Int), true
+	}
+	return 0, false
 }
 
 // modelVector: values of the nondet log under a model of (assertions + extra).
@@ -580,6 +615,7 @@ func (w *World) resetPath() {
 	w.ndlog = w.ndlog[:0]
 	w.findings = w.findings[:0]
 	w.steps = 0
+	w.forcedPos = 0
 	w.tt.nfresh = 0
 	w.threads = w.threads[:0]
 	w.killing = false
